@@ -62,6 +62,15 @@ def _gen_1d(n, ch):
         yield {"source": src, "expr": f"x.rechunk({spec}, threshold=1, block_size_limit=8)", "nexpr": "a", "label": "rechunk-planner", "spec": spec}
     for k in (2, 3, 4):
         yield {"source": src, "expr": f"x.rechunk({k}, balance=True)", "nexpr": "a", "label": "rechunk-balance", "spec": str(k), "balance": True}
+    # balance=True above an elemwise, observed block by block (the balanced layout
+    # is what the node advertises; the pushed-down rechunks must deliver it)
+    for k in (2, 3, 4, 5):
+        for prod, nprod in (("(x + 1)", "(a + 1)"), ("(x + x[::-1])", "(a + a[::-1])"), ("da.where(x > 12, x, 0)", "np.where(a > 12, a, 0)")):
+            r = f"{prod}.rechunk({k}, balance=True)"
+            yield {"source": src, "expr": r, "nexpr": nprod, "label": "rechunk-balance-elemwise", "np_raises_must_raise": False}
+            yield {"source": src, "expr": f"{r}.blocks[0]", "nexpr": f"{nprod}[: {r}.chunks[0][0]]", "label": "rechunk-balance-elemwise-blocks", "np_raises_must_raise": False}
+            yield {"source": src, "expr": f"{r}.blocks[-1]", "nexpr": f"{nprod}[-{r}.chunks[0][-1] :]", "label": "rechunk-balance-elemwise-blocks", "np_raises_must_raise": False}
+            yield {"source": src, "expr": f"da.map_blocks(uf.demean0, {r}, dtype='f8')", "nexpr": f"uf.np_blockmap(uf.demean0, {nprod}, {r}.chunks)", "label": "rechunk-balance-elemwise-blockfn", "exact": False, "np_raises_must_raise": False}
     # rechunk at every position of short programs
     for tgt in [str(k) for k in (1, 2, 3)] + ["-1"] + [repr((c,)) for c in compositions(n)[::5]]:
         progs = [
